@@ -57,6 +57,7 @@ Definition mismatch (k : case) : bool :=
    6 = the client offered an identifier that no successful handshake of this history created
        (a session kept from a handshake that ended in an error)
    7 = resumed a session whose suite the client no longer offers or the server no longer enables
+   8 = the client offered to one server a session created with another one
    `made` : the sessions created so far and still held by their server: (identifier, server, suite) *)
 Fixpoint find_made (i : N) (made : list (N * (N * N))) : option (N * N) :=
   match made with [] => None | (k, v) :: r => if i =? k then Some v else find_made i r end.
@@ -68,6 +69,7 @@ Fixpoint scan (last_failed : list (N * N)) (seen_new : list N) (made : list (N *
       if negb (Bool.eqb (ob_res_c o) (ob_res_s o)) || negb (Bool.eqb (ob_ok_c o) (ob_ok_s o)) then 1
       else if ob_offered o =? 9999 then 6
       else if ob_res_c o && (ob_offered o =? 0) then 2
+      else if match find_made (ob_offered o) made with Some (j', _) => negb (j' =? j) | None => false end then 8
       else if ob_res_c o && match find_made (ob_offered o) made with
                             | Some (j', _) => negb (j' =? j)
                             | None => true end then 2
